@@ -338,6 +338,73 @@ func e7ReadyCase(seed uint64, n int, race bool) Case {
 	}}
 }
 
+
+// e7LateFilterCase: for-filter (deferred) subscriptions and clones whose first
+// filter arrives LATE: their parent is ready and publishes a few hundred events
+// (creates, deletes and re-creations over a handful of keys) before the first
+// Refilter.  Once the filter is there and things are quiet, the node equals
+// its filter applied to its parent, and stays so.
+func e7LateFilterCase(seed uint64, n int) Case {
+	id := fmt.Sprintf("E7/late-first-filter/%d/%d", seed, n)
+	return Case{ID: id, Desc: map[string]interface{}{"seed": seed, "n": n, "what": "deferred nodes get their first filter after 120-320 parent events"}, Bubble: true, Run: func(r *Res) {
+		rng := kit.NewRng(kit.Mix(seed, uint64(n)+780))
+		core := kit.NewCore(&kit.Plan{Seed: rng.U64(), PYield: 120, PSleep: 20, MaxSleep: 40 * time.Microsecond})
+		g := newRootRig(core, nil)
+		defer g.stop(r, "C12")
+		fam := filterFamily()
+		u := smallUniverse()
+		g.root.MakeReady()
+		t := newTree(g.root.Publisher())
+		var deferred []*node
+		for _, k := range []string{"subff", "cloneff", "cloneff"} {
+			nd, err := t.addChild(t.root, k, nil, true)
+			if err != nil {
+				r.V("C06", "tree-build-error", "%v", err)
+				return
+			}
+			deferred = append(deferred, nd)
+			if nd.isController() {
+				if _, err := t.addChild(nd, "subwf", fam[[]int{0, 2}[rng.Intn(2)]], true); err != nil {
+					r.V("C06", "tree-build-error", "%v", err)
+					return
+				}
+			}
+		}
+		total := 120 + rng.Intn(200)
+		for i := 0; i < total; i++ {
+			if _, err := g.mutate(rng, u); err != nil {
+				r.V("C06", "publish-error", "%v", err)
+				return
+			}
+			if i%20 == 19 {
+				g.barrier()
+			}
+		}
+		for _, nd := range deferred {
+			f := fam[[]int{0, 2, 3, 5}[rng.Intn(4)]]
+			if err := nd.refilt(f); err != nil {
+				r.V("C06", "refilter-error", "%v", err)
+				return
+			}
+			nd.filter, nd.supplied = f, true
+			r.Add("refilters", 1)
+			// an event right behind the first filter
+			g.mutate(rng, u)
+		}
+		g.barrier()
+		if !checkFilteredP(r, t, "C06", fmt.Sprintf("first filter supplied after %d parent events", total), false) {
+			return
+		}
+		for i := 0; i < 10; i++ {
+			g.mutate(rng, u)
+		}
+		g.barrier()
+		checkFilteredP(r, t, "C06", "10 events later", false)
+		r.Add("late-first-filter-cases", 1)
+		r.Key(id)
+	}}
+}
+
 func init() {
 	register("E7", func(tier string, seed uint64) []Case {
 		var cases []Case
@@ -351,6 +418,9 @@ func init() {
 		}
 		for i := 0; i < tierPick(tier, 32, 4000); i++ {
 			cases = append(cases, e7ReadyCase(seed, i, i%4 == 3))
+		}
+		for i := 0; i < tierPick(tier, 24, 2000); i++ {
+			cases = append(cases, e7LateFilterCase(seed, i))
 		}
 		return cases
 	})
